@@ -123,17 +123,36 @@ def build_alphabet(lab, which=0):
                     break
         if "M" in al:
             break
+    # a sibling of every other leaf type with the same keys, in a task that nothing else creates: its ancestors must appear with it
+    segs_c = list(segs)
+    tasks = vocab.info[t.name][len(segs) - 4]["lits"] if len(segs) >= 4 else []
+    other_task = next((v for v in tasks if v != segs[len(segs) - 4]), None)
+    if other_task:
+        segs_c[len(segs) - 4] = other_task
+        k = 0
+        for u in leaves[1:]:
+            if u.keys == t.keys:
+                for v in vocab.info[u.name][-1]["lits"]:
+                    c_ = "/".join(segs_c[:-1] + [v])
+                    if v not in model.alias and model.natural(c_) is u:
+                        al["C%d" % k] = c_
+                        k += 1
+                        break
     return {k: v for k, v in al.items() if v}
 
 
 def ops_alphabet(al):
     ops = []
     for r in al:
+        if r.startswith("anc:"):
+            continue            # observed only
         ops.append(("create", r, None))
     for r in ("F1", "V", "A"):
         if r in al:
             ops.append(("create", r, "k1"))
     for r in al:
+        if r.startswith("anc:") or r.startswith("C"):
+            continue
         if r in ("U",):
             ops.append(("set", r, "k1"))
             continue
@@ -286,8 +305,8 @@ def run_sequence(rec, lab, al, ops, hid, fresh=False, config=None):
                     if (e2 in found) != m.exists(e2):
                         rec.violation("search_vs_existence", dict(c, sid=e2), "in find(%s/*): %r, model exists: %r" % (par, e2 in found, m.exists(e2)))
                         return False
-                if config == lab.default_config and key and x:
-                    ga = x.get_attr(key)
+                if config == lab.default_config and key and x and lab.conf.get_getter_for(x) is not None:
+                    ga = x.get_attr(key)       # (types configured without a Getter answer None by configuration)
                     if ga != d1.get(key):
                         rec.violation("get_attr_differs", dict(c, sid=e2), "%r vs %r" % (ga, d1.get(key)))
                         return False
@@ -317,6 +336,13 @@ def worker(args):
     rec = Rec("C15")
     lab = Lab(args.get("seed", 0))
     al = build_alphabet(lab, which=args.get("shard", 0) % 2 if "replay" not in args else args["replay"].get("which", 0))
+    for r in [r for r in al if r.startswith("C")]:
+        parts = al[r].split("/")
+        for i in range(len(parts) - 1, 2, -1):
+            a = "/".join(parts[:i])
+            ta = lab.model.natural(a)
+            if ta is not None and lab.trees.path_of(lab.default_config, a)[0] is not None and a not in al.values():
+                al["anc:%s:%d" % (r, i)] = a
     ops = ops_alphabet(al)
     rng = lab.rng
     lab.alphabet_which = args.get("shard", 0) % 2 if "replay" not in args else args["replay"].get("which", 0)
